@@ -66,3 +66,39 @@ def check_canary(o, timeout_ms=3000):
         if r == z3.unknown:
             status = "reachable?"
     return {"status": status, "time": time.time() - t0, "solver": "z3-" + z3.get_version_string(), "model": None}
+
+
+def cross_check(o, timeout_s=10):
+    """thorough tier: the same obligation, exported as SMT-LIB 2, decided again by two independent solver builds
+    (z3 4.8.12 and cvc5 1.0.3 CLIs).  Returns {tool: 'unsat' | 'sat' | 'unknown' | 'timeout' | 'error'}."""
+    import os
+    import subprocess
+    import tempfile
+
+    s = z3.Solver()
+    for a in o.assumes:
+        s.add(a)
+    s.add(z3.Not(o.goal))
+    res = {}
+    f = tempfile.NamedTemporaryFile("w", suffix=".smt2", delete=False)
+    try:
+        f.write(s.to_smt2())
+        f.close()
+        for tool, cmd in (("z3-4.8.12", ["/usr/bin/z3", "-T:%d" % timeout_s, f.name]), ("cvc5-1.0.3", ["/usr/bin/cvc5", "--tlimit=%d" % (timeout_s * 1000), f.name])):
+            if not os.path.exists(cmd[0]):
+                res[tool] = "absent"
+                continue
+            try:
+                out = subprocess.run(cmd, capture_output=True, text=True, timeout=timeout_s + 5).stdout.strip().splitlines()
+                r = out[0].strip() if out else "error"
+                res[tool] = r if r in ("unsat", "sat", "unknown") else ("timeout" if "timeout" in r else "error")
+            except subprocess.TimeoutExpired:
+                res[tool] = "timeout"
+            except Exception:
+                res[tool] = "error"
+    finally:
+        try:
+            os.unlink(f.name)
+        except OSError:
+            pass
+    return res
